@@ -65,6 +65,7 @@ def run_properties(props, args, seed, scratch, manifest):
         by_backend = {}
         solver_time = 0.0
         undecided = []
+        covers_undecided = []
         carved = {o["name"][:-len("!carved")]: o for o in pobls if o["name"].endswith("!carved")}
         for o in pobls:
             name = o["name"]
@@ -91,6 +92,11 @@ def run_properties(props, args, seed, scratch, manifest):
                 continue
             if r["answer"] == want:
                 discharged += 1
+                continue
+            if o.get("cover") and r["answer"] in ("unknown", "error") and r["answer"] != "error":
+                # a cover the solvers cannot decide proves nothing either way: not counted
+                total -= 1
+                covers_undecided.append(name)
                 continue
             if o.get("cover"):
                 # vacuity: a precondition / path that must be satisfiable is not
@@ -136,7 +142,7 @@ def run_properties(props, args, seed, scratch, manifest):
             rc = 1
         fns = [f for f in out["functions"] if p in (f.get("props") or [])]
         write_evidence(p, args.tier, seed, pobls, {"total": total, "discharged": discharged, "by_backend": by_backend,
-                       "solver_time": solver_time, "samples": samples, "undecided": undecided, "kf": kf_lines,
+                       "solver_time": solver_time, "samples": samples, "undecided": undecided, "covers_undecided": covers_undecided, "kf": kf_lines,
                        "violations": [(o["name"], why) for o, r, why in viol]},
                        fns, time.time() - t_start, nviol, out, gen_s)
         print("property %s: %d obligations, %d discharged, %d violations, %d known findings (%.1fs)" % (
@@ -221,6 +227,7 @@ def write_evidence(prop, tier, seed, pobls, st, fns, wall, nviol, out, gen_s):
         "solver_time_s": round(st.get("solver_time", 0.0), 2),
         "vcgen_s": round(gen_s or 0.0, 2),
         "undecided": st.get("undecided", []),
+        "covers_undecided_not_counted": st.get("covers_undecided", []),
         "known_findings_seen": st.get("kf", []),
         "violations": st.get("violations", []),
         "explanation": "every obligation is an SMT query (path condition and negated goal) generated from go/ssa of /repo's working tree; "
